@@ -44,8 +44,16 @@ RotCols(Zm, a, b, g) == [i \in 1..Len(Zm) |-> [j \in 1..Len(Zm[1]) |->
                             ELSE IF j = b THEN (g[2] * Zm[i][a] + g[1] * Zm[i][b]) \div g[3]
                             ELSE Zm[i][j]]]
 GivensBetter == LET k == FNCols(Z) IN \E a \in 1..k, b \in 1..k, g \in Angles : a < b /\ Res2(RotCols(Z, a, b, g)) + OBud < Base
+\* competitor witness C.Rstar: ANY orthogonal matrix is an admissible competitor, so a matrix supplied by the harness (the
+\* Procrustes solution computed independently) only has to be verified orthogonal before its residual is compared
+\* both residuals go through the same (witness) bases, so only fixed-point rounding separates them: an absolute budget and
+\* 0.05 % of the residual instead of the 0.25 % - 1 % granted to the enumerated competitors
+WBud == 2 * (64 * n * p + 64) + Base \div 2000
+Rstar == C.Rstar
+RstarOK == Rstar # <<>> /\ Len(Rstar) = FNCols(Rstar) /\ IsOrthonormalCols(Rstar, 4 * Len(Rstar) + 8) /\ IsOrthonormalCols(FTr(Rstar), 4 * Len(Rstar) + 8)
 OptClause == IF C.padded /\ p <= 4 /\ SignedPermBetter THEN "a-signed-permutation-has-a-smaller-residual"
              ELSE IF C.padded /\ GivensBetter THEN "a-rotation-of-the-fitted-map-has-a-smaller-residual"
+             ELSE IF C.padded /\ RstarOK /\ Len(Rstar) = p /\ Res2(FMatMul(Xp, Rstar)) + WBud < Base THEN "the-verified-orthogonal-competitor-has-a-smaller-residual"
              ELSE "ok"
 \* recovery: Y = X Q for the rational orthogonal Q = C.Q / C.Qden and full column rank X
 RecoverClause == IF C.Q = <<>> THEN "ok"
@@ -70,13 +78,22 @@ YV == FMatMul(Yp, FTr(Vt))
 RedBase == FFrob2(FSub(YV, FMatMul(Z, FTr(Vt))))
 RedBetter == \E pi \in Permutations(1..r), sg \in [1..r -> {-1, 1}] :
                 FFrob2(FSub(YV, [i \in 1..n |-> [j \in 1..r |-> sg[j] * XU[i][pi[j]]]])) + OBud + RedBase \div 100 < RedBase
-ProjOptClause == IF C.padded \/ r > 4 \/ ~C.fullrank THEN "ok" ELSE IF RedBetter THEN "a-rotation-between-the-reduced-spaces-has-a-smaller-residual" ELSE "ok"
+\* ... and U (R G) Vt for Givens rotations G of the fitted reduced map (small and large angles in every plane)
+Zr == FMatMul(Z, FTr(Vt))
+RedGivensBetter == \E a \in 1..r, b \in 1..r, g \in Angles : a < b /\ FFrob2(FSub(YV, RotCols(Zr, a, b, g))) + OBud + RedBase \div 100 < RedBase
+ProjOptClause == IF C.padded \/ r > 4 \/ ~C.fullrank THEN "ok"
+                 ELSE IF RedBetter THEN "a-rotation-between-the-reduced-spaces-has-a-smaller-residual"
+                 ELSE IF RedGivensBetter THEN "a-rotation-of-the-fitted-reduced-map-has-a-smaller-residual"
+                 ELSE IF RstarOK /\ Len(Rstar) = r /\ FFrob2(FSub(YV, FMatMul(XU, Rstar))) + WBud < RedBase
+                      THEN "the-verified-rotation-between-the-reduced-spaces-has-a-smaller-residual"
+                 ELSE "ok"
 NormClause == IF \E i \in 1..Len(C.preds) : FSqNorm(C.preds[i]) > FSqNorm(PadRow(C.newX[i], f)) + 16 * (f + t) * ((FVMaxAbs(C.preds[i]) \div S) + 2)
               THEN "prediction-longer-than-input" ELSE "ok"
 First(s) == LET bad == {i \in 1..Len(s) : s[i] # "ok"} IN IF bad = {} THEN "ok" ELSE s[SetMin(bad)]
 Verdict == IF C.raised THEN <<"rejected", "valid-input-raised">>
            ELSE IF FMaxAbs(Om) > 8 * S THEN <<"rejected", "weight-matrix-entries-exceed-one">>
            ELSE IF ~C.padded /\ ~SvdOK THEN <<"badwitness", "svd">>
+           ELSE IF Rstar # <<>> /\ ~RstarOK THEN <<"badwitness", "competitor-not-orthogonal">>
            ELSE LET c == First(<<OrthClause, ProjClause, NormClause, RecoverClause, OptClause, ProjOptClause>>) IN
                 IF c = "ok" THEN <<"ok">> ELSE <<"rejected", c>>
 Emit == PrintT(ToJson([k |-> "V", id |-> C.id, v |-> Verdict, ctx |-> [padded |-> C.padded, f |-> f, t |-> t, kind |-> C.kind]]))
